@@ -409,6 +409,15 @@ func main() {
 		op, cls := runWriterContract(r)
 		out.Case(op, "accept", cls, true)
 	}
+	// vectored-write tier: the real writers over loopback TCP (writev path of net.Buffers.WriteTo)
+	for i := 0; i < 24*mult; i++ {
+		op, cls := runWritev(r)
+		if strings.HasPrefix(op, "fatal") {
+			fmt.Fprintln(os.Stderr, "c07:", op)
+			os.Exit(3)
+		}
+		out.Case(op, "accept", cls, true)
+	}
 	// scheduling tier: both writers x write timeout {0, >0} x protocol, scripted transport
 	nsched := 700 * mult
 	if v := os.Getenv("C07_NSCHED"); v != "" {
